@@ -1984,12 +1984,27 @@ def proximal_huber(space, gamma):
             else:
                 norm = x.ufuncs.absolute()
 
-            mask = norm.ufuncs.less_equal(gamma + self.sigma)
-            out[mask] = gamma / (gamma + self.sigma) * x[mask]
+            # Work on the underlying arrays: a product space element cannot
+            # be indexed with a mask, and masking an element of an
+            # array-weighted space would create a sub-space with
+            # non-matching weights.
+            norm_arr = norm.asarray()
+            small = norm_arr <= gamma + self.sigma
+            large = np.logical_not(small)
 
-            mask.ufuncs.logical_not(out=mask)
-            sign_x = x.ufuncs.sign()
-            out[mask] = x[mask] - self.sigma * sign_x[mask]
+            if isinstance(self.domain, ProductSpace):
+                parts = list(zip(x, out))
+            else:
+                parts = [(x, out)]
+
+            for x_i, out_i in parts:
+                x_arr = x_i.asarray()
+                res = np.empty_like(x_arr)
+                res[small] = gamma / (gamma + self.sigma) * x_arr[small]
+                # x - sigma * x / |x|_2, for scalars this is x - sigma * sign(x)
+                res[large] = (x_arr[large] -
+                              self.sigma * (x_arr[large] / norm_arr[large]))
+                out_i[:] = res
 
             return out
 
